@@ -202,6 +202,33 @@ func init() {
 		}
 		externWrites[name] = noWrites
 	}
+	for name, bt := range map[string]types.BasicKind{
+		"github.com/aws/aws-sdk-go-v2/aws.Bool": types.Bool, "github.com/aws/aws-sdk-go/aws.Bool": types.Bool,
+		"github.com/aws/aws-sdk-go-v2/aws.Int32": types.Int32, "github.com/aws/aws-sdk-go-v2/aws.Int64": types.Int64, "github.com/aws/aws-sdk-go/aws.Int64": types.Int64} {
+		bt := bt
+		externs[name] = func(f *Frame, b *ssa.BasicBlock, in *ssa.Call, args []Val, st *State, g string) Val {
+			e := f.e
+			e.note("assumed contract: aws.Bool / aws.Int32 / aws.Int64(v) return a pointer to a fresh copy of v")
+			h := e.ptrHeap(types.Typ[bt])
+			r := f.allocRef(st, "awsPtr")
+			st.heap[h] = app("store", st.H(h), r, args[0].T)
+			return Val{T: r}
+		}
+		externWrites[name] = noWrites
+		externReads[name] = func(fn *ssa.Function) []hkey { return nil }
+	}
+	for name, bt := range map[string]types.BasicKind{
+		"github.com/aws/aws-sdk-go-v2/aws.ToBool": types.Bool, "github.com/aws/aws-sdk-go/aws.BoolValue": types.Bool,
+		"github.com/aws/aws-sdk-go-v2/aws.ToInt32": types.Int32, "github.com/aws/aws-sdk-go-v2/aws.ToInt64": types.Int64, "github.com/aws/aws-sdk-go/aws.Int64Value": types.Int64} {
+		bt := bt
+		externs[name] = func(f *Frame, b *ssa.BasicBlock, in *ssa.Call, args []Val, st *State, g string) Val {
+			e := f.e
+			e.note("assumed contract: aws.ToBool / ToInt32 / ToInt64 / BoolValue / Int64Value(p) is *p, or the zero value for a nil pointer")
+			h := e.ptrHeap(types.Typ[bt])
+			return Val{T: ite(eq(args[0].T, "0"), e.zero(types.Typ[bt]), sel(st.H(h), args[0].T))}
+		}
+		externWrites[name] = noWrites
+	}
 	externWrites["strings.Fields"] = noWrites
 	externReads["strings.Fields"] = func(fn *ssa.Function) []hkey { return nil }
 	externWrites["strings.Join"] = noWrites
